@@ -24,6 +24,21 @@ NCases(r, tt, K) == Cardinality({j \in 1..Len(AllCases(r)) : AllCases(r)[j].t = 
 NEv(ref, K) == Cardinality({j \in 1..Len(ref) : ref[j] \in K})
 Passed(ref) == Len(ref) > 0 /\ \A j \in 1..Len(ref) : ref[j] \in {"ok", "X"}
 
+(* ---- I-spec (DRIFT): the exact sequence of testcase entries per report file *)
+(* r.suiteTests[file] = the tests recorded in that file, in execution order;     *)
+(* _record appends one entry per result event (skips excepted), --repeat runs    *)
+(* the layer's tests again                                                       *)
+EntryKind(e) == IF e \in X!FailKinds THEN "failure" ELSE IF e \in X!ErrKinds THEN "error" ELSE "none"
+RefOf(r, tt) == r.tests[CHOOSE j \in 1..Len(r.tests) : r.tests[j].t = tt].ref
+EntriesOf(r, tt) == LET ev == SelectSeq(RefOf(r, tt), LAMBDA e : e # "S")
+                    IN [j \in 1..Len(ev) |-> <<tt, EntryKind(ev[j])>>]
+OnePass(r, ts) == FlattenSeq([j \in 1..Len(ts) |-> EntriesOf(r, ts[j])])
+PredictedCases(r, ts) == FlattenSeq([i \in 1..r.repeat |-> OnePass(r, ts)])
+ObservedCases(f) == [j \in 1..Len(f.cases) |-> <<f.cases[j].t, f.cases[j].kind>>]
+Drift(r) == \E kk \in 1..Len(r.files) :
+              /\ r.files[kk].wellformed /\ r.files[kk].file \in DOMAIN r.suiteTests
+              /\ ObservedCases(r.files[kk]) # PredictedCases(r, r.suiteTests[r.files[kk].file])
+
 Verdict(r) ==
   LET F == 1..Len(r.files)
       T == 1..Len(r.tests)
@@ -50,6 +65,7 @@ Verdict(r) ==
           THEN <<"C17:wrong-identity",
                  IF \A j \in identity : subs(j) THEN "failing-subtest" ELSE "test">>
      ELSE IF extra # {} THEN <<"C17:extra-case", r.tests[CHOOSE j \in extra : TRUE].t>>
+     ELSE IF Drift(r) THEN <<"DRIFT", "">>
      ELSE <<"", "">>
 
 Report == LET v == Verdict(Recs[k]) IN PrintT(<<"XML", Recs[k].id, v[1], v[2]>>)
